@@ -312,6 +312,32 @@ def run(m: Model, r: Report, tier: str) -> None:
     if n_r9 < 3:
         raise AnalysisError(f"only {n_r9} random integer response fields found in RandomUDSServer")
 
+    # the state object of a server is created once by the server class itself (RandomUDSServer needs its own RNGEcuState); nobody replaces it
+    est = m.require_class("gallia.services.uds.ecu.ECUState")
+    repl = []
+    for f in m.module(SRV).functions.values():
+        pass
+    for c_ in m.module(SRV).classes.values():
+        for f in c_.methods.values():
+            for n in ast.walk(f.node):
+                if isinstance(n, (ast.Assign, ast.AnnAssign)):
+                    tg = ast.unparse(n.targets[0] if isinstance(n, ast.Assign) else n.target)
+                    if tg.endswith(".state") and (tg != "self.state" or f.name != "__init__"):
+                        repl.append(f"{f.qualname}:{n.lineno} `{ast.unparse(n)[:50]}`")
+                    if tg == "self.state" and f.name == "__init__" and n.value is not None and isinstance(n.value, ast.Call):
+                        k_ = m.resolve_expr(f.module, n.value.func, c_)
+                        owner_needs = [a for k2 in m.mro(c_) for g in k2.methods.values() for a in
+                                       {x.attr for x in ast.walk(g.node) if isinstance(x, ast.Attribute) and ast.unparse(x.value) == "self.state" and not x.attr.startswith("__")}]
+                        lacks = sorted({a for a in owner_needs if isinstance(k_, ClassInfo) and not any(
+                            a in k3.methods or a in k3.class_attrs or any(isinstance(y, (ast.Assign, ast.AnnAssign)) and
+                            ast.unparse(y.targets[0] if isinstance(y, ast.Assign) else y.target) == f"self.{a}" for g2 in k3.methods.values() for y in ast.walk(g2.node))
+                            for k3 in m.mro(k_))})
+                        r.check(isinstance(k_, ClassInfo) and m.is_subclass(k_, est) and not lacks, "R5", f"{f.qualname}#state-class",
+                                f"self.state is a {ast.unparse(n.value.func)} which lacks {lacks} that {c_.name} reads from self.state", loc=f.loc)
+    r.check(not repl, "R5", f"{SRV}#state-never-replaced",
+            f"the server's state object is replaced outside its constructor: {repl}; a plain ECUState lacks what the concrete server keeps in its own state class "
+            "(AttributeError in the next handler, connection dropped). Use state.reset()", loc=m.module(SRV).relpath)
+
     # ---------------------------------------------------------------- R8
     from sa import miniterp
     rp = m.require_function(f"{SRV}.RNG.random_payload")
